@@ -324,4 +324,6 @@ def r_idioms(ctx):
     repo_idioms(ctx, "C17.R4", ('http_server',))
 
 
+EXPLANATION = EXPLANATION + " (R1, as built) the evaluated family has eight roots: absolute with and without trailing separator, the file system root, the empty string, '.', relative with and without trailing separator, doubled trailing separator."
+
 RULES = [("C17.R1", r1), ("C17.R2", r2), ("C17.R3", r3), ("C17.R4", r_idioms)]
